@@ -334,7 +334,7 @@ class HistoryView:
             names = loader_visible_manifests(self.ascmhl)
             for name, num in sorted(names.items(), key=lambda kv: (kv[1], kv[0])):
                 self.generations.append((num, name, read_manifest(os.path.join(self.ascmhl, name))))
-        except (ET.ParseError, ValueError, OSError) as e:
+        except (ET.ParseError, ValueError, OSError, LookupError) as e:  # (LookupError: a damaged encoding name)
             self.error = f"{type(e).__name__}: {e}"
 
     def numbers(self):
@@ -450,7 +450,7 @@ def histories_from_files(asc_files):
                 m = LOADER_NAME_RE.match(name[:-4])
                 if m:
                     h["gens"].append((int(m.group(1)), name, read_manifest_bytes(asc_files[rel], rel)))
-        except (ET.ParseError, ValueError) as e:
+        except (ET.ParseError, ValueError, LookupError) as e:
             h["error"] = f"{rel}: {e}"
     for h in out.values():
         h["gens"].sort(key=lambda g: (g[0], g[1]))
